@@ -12,6 +12,7 @@ from ..lib import load
 from . import common as C
 
 ID = "C17"
+SENTINEL = True      # prelude cases (factory objects used and moved) are judged by the global-state sentinel here
 EXHAUSTIVE = True
 BUDGET = {"quick": 1, "thorough": 1}
 SOFT = {"quick": 80, "thorough": 560}
@@ -24,10 +25,11 @@ REQUIRED_FUNCS = ("Plane.general_form", "Plane.point_normal", "Plane.parametric"
 
 
 def required_cells(tier):
-    req = {"kind:general-form": 2394, "kind:plane": 342, "kind:line": 342}
+    req = {"kind:general-form": 2300, "kind:plane": 320, "kind:line": 320}     # (a few cases may be set aside by the hash-boundary flag)
     for z in ("x", "y", "z", "xy", "xz", "yz", "none"):
         req["zero-pattern:" + z] = 10
     req["negative-leading"] = 100
+    req["history:forms-after-derived-planes-moved"] = 50
     return req
 
 
@@ -212,6 +214,24 @@ def judge(case):
                     mu.fail(key + ":three-point-misses-its-point", "Plane(p1,p2,p3) does not contain %r" % q)
         if mu.viol is None:
             _judge_plane(G, mu, Pobj, pd, key)
+        if mu.viol is None and case["ls"] % 3 == 0:
+            # history: the forms are read once, then objects that share state with P by design (its negation, the
+            # plane returned by an earlier move) are moved; P's forms must describe P as it is now
+            mu.cell("history:forms-after-derived-planes-moved")
+            try:
+                Q = -Pobj
+                R = Pobj.move(G.Vector(0.5, -1.0, 2.0))
+                for derived, w in ((Q, (1.0, 2.0, -0.5)), (R, (-2.0, 0.25, 1.0))):
+                    Pobj.general_form(), hash(Pobj), Pobj.point_normal(), Pobj.parametric()      # read the forms ...
+                    derived.move(G.Vector(*w))                                                   # ... then a plane sharing P's point moves
+                    now = lower(Pobj)
+                    pd_now = ("PL", tuple(F(x) for x in now[1]), n)     # P as it is now (its point may legitimately have moved)
+                    _judge_plane(G, mu, Pobj, pd_now, key + ":after-derived-planes-moved")
+                    if mu.viol is not None:
+                        break
+            except Exception as e:
+                mu.fail(key + ":history-raises-" + type(e).__name__, "negate / move of derived planes raised %r" % e)
+                return mu.result()
         return mu.result(outcome="plane ok")
     # line
     p, d = case["p"], case["d"]
